@@ -284,3 +284,253 @@ mod c03_suites {
         );
     }
 }
+
+// C03: c03_batch — the real `ProofBatch::generate` (prover loop, PRSS share splitting, masks) and the real
+// `BatchToVerify::{generate_batch_to_verify, generate_challenges, compute_p_and_q_r, verify}` on all three helpers of
+// a seeded TestWorld, for an honest prover, a prover whose left verifier recorded an altered product share, and a
+// "two-faced" prover (first proof from one set of records, recursion adapted to the verifier's view).
+// The PRSS values / masks / challenges observed in a first run are put into the request (the model is parametric in
+// them); `exec` re-runs the same seeded world and reports the prover's left shares, p(r), q(r) and the verdicts.
+mod c03_batch {
+    use super::super::{
+        ProverTableIndices, VerifierTableIndices,
+        malicious_security::{
+            FIRST_RECURSION_FACTOR as FRF, lagrange::LagrangeTable, prover::ProverLagrangeInput,
+        },
+        validation_protocol::{proof_generation::ProofBatch, validation::BatchToVerify},
+    };
+    use crate::{
+        ff::{Fp61BitPrime, PrimeField, U128Conversions},
+        ipa_verif::proto::*,
+        protocol::{
+            RecordId, RecordIdRange,
+            context::{
+                Context,
+                dzkp_field::{DZKPBaseField, TABLE_U, TABLE_V},
+            },
+        },
+        test_fixture::{Runner, TestWorld, TestWorldConfig},
+    };
+
+    type F = Fp61BitPrime;
+
+    #[derive(Clone)]
+    struct TwoFaced {
+        first: Vec<(u8, u8)>,
+        rec: Vec<(u8, u8)>,
+    }
+
+    impl ProverLagrangeInput<F, FRF> for TwoFaced {
+        fn extrapolate_y_values<'a, const P: usize, const M: usize>(
+            self,
+            lagrange_table: &'a LagrangeTable<F, FRF, M>,
+        ) -> impl Iterator<Item = ([F; P], [F; P])> + 'a
+        where
+            Self: 'a,
+        {
+            ProverTableIndices(self.first.into_iter()).extrapolate_y_values(lagrange_table)
+        }
+
+        fn eval_at_r<'a>(self, lagrange_table: &'a LagrangeTable<F, FRF, 1>) -> impl Iterator<Item = (F, F)> + 'a
+        where
+            Self: 'a,
+        {
+            ProverTableIndices(self.rec.into_iter()).eval_at_r(lagrange_table)
+        }
+    }
+
+    #[derive(Debug, Clone, Default)]
+    struct Obs {
+        left: Vec<u128>,      // my_batch_left_shares (flattened)
+        from_left: Vec<u128>, // shares_of_batch_from_left_prover (PRSS shares of the LEFT prover's proofs)
+        p_mask_right: u128,   // p mask of the RIGHT prover
+        q_mask_left: u128,    // q mask of the LEFT prover
+        chs_right: Vec<u128>, // challenges for the RIGHT prover
+        p_right: u128,        // p(r) of the RIGHT prover
+        q_left: u128,         // q(r) of the LEFT prover
+        ok: bool,             // verdict about the RIGHT prover
+    }
+
+    fn flat(b: &ProofBatch) -> Vec<u128> {
+        b.first_proof.iter().chain(b.proofs.iter().flat_map(|p| p.iter())).map(|x| x.as_u128()).collect()
+    }
+
+    struct Views {
+        first: Vec<(u8, u8)>,
+        rec: Vec<(u8, u8)>,
+        ul: Vec<u8>,
+        vr: Vec<u8>,
+    }
+
+    /// base indices + deviation -> what the prover uses for the first proof / for the recursion and what its
+    /// left / right verifier derive from their own records.
+    fn views(us: &str, vs: &str, dev: &str) -> Views {
+        let u: Vec<u8> = us.bytes().map(|b| b - b'0').collect();
+        let v: Vec<u8> = vs.bytes().map(|b| b - b'0').collect();
+        assert_eq!(u.len(), v.len(), "harness: index strings differ in length");
+        let honest: Vec<(u8, u8)> = u.iter().copied().zip(v.iter().copied()).collect();
+        let mut ul = u.clone();
+        let mut rec = honest.clone();
+        if dev != "-" {
+            let (kind, pos) = dev.split_once(':').expect("dev");
+            let pos: usize = pos.parse().unwrap();
+            // the left verifier recorded a flipped z_right at `pos`: bit e (value 4) of its u index differs
+            ul[pos] ^= 4;
+            if kind == "two" {
+                rec[pos].0 ^= 4;
+            } else {
+                assert_eq!(kind, "alt");
+            }
+        }
+        Views { first: honest, rec, ul, vr: v }
+    }
+
+    async fn run(seed: u64, w: &Views) -> [Obs; 3] {
+        let world = TestWorld::<crate::sharding::NotSharded>::with_config(&TestWorldConfig::default().with_seed(seed));
+        let input = TwoFaced { first: w.first.clone(), rec: w.rec.clone() };
+        let (input, ul, vr) = (&input, &w.ul, &w.vr);
+        let m = w.first.len();
+        world
+            .semi_honest((), |ctx, ()| async move {
+                let (my_left, from_left, p_mask_right, q_mask_left) =
+                    ProofBatch::generate(&ctx.narrow("generate_batch"), RecordIdRange::ALL, input.clone());
+                let mut o = Obs {
+                    left: flat(&my_left),
+                    from_left: flat(&from_left),
+                    p_mask_right: p_mask_right.as_u128(),
+                    q_mask_left: q_mask_left.as_u128(),
+                    ..Obs::default()
+                };
+                let batch = BatchToVerify::generate_batch_to_verify(
+                    ctx.narrow("generate_batch"),
+                    RecordId::FIRST,
+                    my_left,
+                    from_left,
+                    p_mask_right,
+                    q_mask_left,
+                )
+                .await;
+                let (chs_left, chs_right) = batch.generate_challenges(ctx.narrow("generate_hash"), RecordId::FIRST).await;
+                o.chs_right = chs_right.iter().map(|x| x.as_u128()).collect();
+                let (p, q) = batch.compute_p_and_q_r(
+                    &chs_left,
+                    &chs_right,
+                    VerifierTableIndices { input: ul.iter().copied(), table: &TABLE_U },
+                    VerifierTableIndices { input: vr.iter().copied(), table: &TABLE_V },
+                );
+                o.p_right = p.as_u128();
+                o.q_left = q.as_u128();
+                // as in `Batch::validate`: every multiplication contributes -1/2
+                let sum_of_uv = F::truncate_from(u128::try_from(m).unwrap()) * F::MINUS_ONE_HALF;
+                o.ok = batch
+                    .verify(ctx.narrow("verify"), RecordId::FIRST, sum_of_uv, p, q, &chs_left, &chs_right)
+                    .await
+                    .is_ok();
+                o
+            })
+            .await
+    }
+
+    /// the randomness concerning prover `pi`: PRSS shares of its proofs (held by its right verifier), its masks,
+    /// its challenges (as derived by its left verifier).
+    fn randomness(obs: &[Obs; 3], pi: usize) -> String {
+        let (l, r) = ((pi + 2) % 3, (pi + 1) % 3);
+        format!(
+            "{} {} {} {}",
+            nat_list(&obs[r].from_left),
+            obs[l].p_mask_right,
+            obs[r].q_mask_left,
+            nat_list(&obs[l].chs_right)
+        )
+    }
+
+    fn exec(req: &str) -> String {
+        let t: Vec<&str> = req.split(' ').collect();
+        let seed: u64 = t[1].parse().unwrap();
+        let pi: usize = t[2].parse().unwrap();
+        let w = views(t[3], t[4], t[5]);
+        let obs = match block_on_timeout(120, run(seed, &w)) {
+            Ok(o) => o,
+            Err(e) => return e,
+        };
+        if randomness(&obs, pi) != t[6..10].join(" ") {
+            return "randomness-differs-between-runs".into();
+        }
+        let (l, r) = ((pi + 2) % 3, (pi + 1) % 3);
+        let v = |b: bool| if b { "ok" } else { "fail" };
+        format!(
+            "left={} p={} q={} v={} all={},{},{}",
+            nat_list(&obs[pi].left),
+            obs[l].p_right,
+            obs[r].q_left,
+            v(obs[l].ok),
+            v(obs[0].ok),
+            v(obs[1].ok),
+            v(obs[2].ok)
+        )
+    }
+
+    fn consistent_pair(rng: &mut Rng) -> (u8, u8) {
+        loop {
+            let (i, j) = (rng.below(8) as u8, rng.below(8) as u8);
+            let (a, c, e) = (i & 1, (i >> 1) & 1, (i >> 2) & 1);
+            let (b, d, f) = (j & 1, (j >> 1) & 1, (j >> 2) & 1);
+            if e == (a & b) ^ (c & d) ^ f {
+                return (i, j);
+            }
+        }
+    }
+
+    #[test]
+    fn verif_c03_batch() {
+        let _ = F::PRIME;
+        run_suite(
+            "c03_batch",
+            |rng, thorough| {
+                let mut out = vec![];
+                // batch sizes around the powers of the recursion factor (4^k: the two-extra-iterations corner),
+                // 3·4^k (largest size with k+1 compressed proofs) and random ones
+                let mut sizes: Vec<usize> = vec![1, 2, 3, 4, 5, 11, 12, 13, 15, 16, 17, 47, 48, 49, 63, 64, 65, 191, 192, 193, 255, 256, 257, 1024];
+                if thorough {
+                    sizes.extend_from_slice(&[767, 768, 769, 1023, 1025, 3072, 3073, 4095, 4096, 4097, 16384]);
+                    for _ in 0..40 {
+                        sizes.push(1 + rng.usize_below(3000));
+                    }
+                } else {
+                    for _ in 0..6 {
+                        sizes.push(1 + rng.usize_below(700));
+                    }
+                }
+                for (k, &m) in sizes.iter().enumerate() {
+                    let pairs: Vec<(u8, u8)> = (0..m).map(|_| consistent_pair(rng)).collect();
+                    let us: String = pairs.iter().map(|p| char::from(b'0' + p.0)).collect();
+                    let vs: String = pairs.iter().map(|p| char::from(b'0' + p.1)).collect();
+                    let pos = match k % 3 {
+                        0 => 0,
+                        1 => m - 1,
+                        _ => rng.usize_below(m),
+                    };
+                    let mut devs = vec!["-".to_string(), format!("two:{pos}")];
+                    if k % 2 == 0 || thorough {
+                        devs.push(format!("alt:{pos}"));
+                    }
+                    for dev in devs {
+                        let seed = rng.below(1 << 30);
+                        let pi = rng.usize_below(3);
+                        let w = views(&us, &vs, &dev);
+                        // a panic / hang of the real code in this observation run must not take the suite down:
+                        // the request is emitted without randomness and `exec` reports the panic for this input
+                        let first = std::panic::catch_unwind(std::panic::AssertUnwindSafe(|| block_on_timeout(120, run(seed, &w))));
+                        let rnd = match first {
+                            Ok(Ok(obs)) => randomness(&obs, pi),
+                            _ => "- 0 0 -".to_string(),
+                        };
+                        out.push(format!("c03.batch {seed} {pi} {us} {vs} {dev} {rnd}"));
+                    }
+                }
+                out
+            },
+            exec,
+        );
+    }
+}
